@@ -69,7 +69,7 @@ pub fn main(tier: &str, seed: u64, n_override: Option<u64>) {
         }
         // inverse entry points
         let entry: u8 = if five { 2 + rng.below(2) as u8 } else { rng.below(2) as u8 };
-        let prev: Joints = match rng.below(3) { 0 => j, 1 => std::array::from_fn(|i| j[i] + rng.range(-0.3, 0.3)), _ => std::array::from_fn(|_| rng.range(-2.0 * PI, 2.0 * PI)) };
+        let prev: Joints = match rng.below(4) { 0 => j, 1 => std::array::from_fn(|i| j[i] + rng.range(-0.3, 0.3)), 2 => std::array::from_fn(|_| rng.range(-2.0 * PI, 2.0 * PI)), _ => std::array::from_fn(|i| j[i] + 2.0 * PI * rng.int(-1, 1) as f64) };
         let j6 = dy(rng.range(-3.0, 3.0), 12);
         let sols = call_entry(k.as_ref(), entry, &f, &prev, j6);
         let lever: f64 = 1.0 + ws.iter().map(|w| match w { W::Tool(t) | W::Frame(t) => t.translation.vector.norm(), W::Base(_) => 0.0 }).sum::<f64>();
@@ -83,6 +83,14 @@ pub fn main(tier: &str, seed: u64, n_override: Option<u64>) {
                 let want6 = if entry == 2 { j6 } else { prev[5] };
                 if s[5] != want6 { fail(format!("C09.five_dof_j6_not_callers_entry{}", entry)); }
             }
+        }
+        // every entry point of the stack is the wrapped robot's entry point at the transformed pose: same answers, same order
+        {
+            let mut ip = f;
+            for w in ws.iter() { match w { W::Tool(t) | W::Frame(t) => ip = ip * t.inverse(), W::Base(b) => ip = b.inverse() * ip } }
+            let expect = call_entry(inner.as_ref(), entry, &ip, &prev, j6);
+            let same = expect.len() == sols.len() && expect.iter().zip(sols.iter()).all(|(a, b)| (0..6).all(|i| (a[i] - b[i]).abs() <= 1e-9 || (a[i].is_nan() && b[i].is_nan())));
+            if !same { fail(format!("C09.stack_answers_differ_from_inner_robot_at_transformed_pose_entry{}", entry)); }
         }
         if entry == 1 || entry == 3 {
             let w0 = r.cons.as_ref().map(|c| c.2).unwrap_or(0.0);
